@@ -8,7 +8,7 @@ Import ListNotations.
    chain answers "allow"; every consultation carries the peer address, the presented
    fingerprint and the normalised URL of the request that was sent *)
 Theorem C04_gate : forall ip6 c evs,
-  Spec.C04.gate ip6 c (Spec.C04.expected_url ip6 (stream evs)) evs
+  Spec.C04.gate c (Spec.C04.expected_url ip6 (stream evs)) evs
     (run ip6 (fun _ => c_hres c) (c_mw c) (c_upload c) (c_ip c) (c_fp c) init evs) [] false = true.
 Proof. exact Server_proofs.gate. Qed.
 Print Assumptions C04_gate.
